@@ -207,7 +207,8 @@ Proof.
   intros sc h p claim Hwf Hd Hin Ht.
   destruct (C13_same_outcome sc h Hwf Hd Ht) as [A B].
   set (g := if claim then mkStage [OFinal (ip_idx p) true] (claim_reps p)
-            else mkStage [OFinal (ip_idx p) false] (exp_reps p)).
+                                    (if ip_two p then 1 else 0)
+            else mkStage [OFinal (ip_idx p) false] (exp_reps p) 2).
   assert (Hg : In g (r_stages (inc_spec p claim))).
   { unfold g, inc_spec, inc_script. simpl. destruct claim; simpl.
     - right. apply in_or_app. right. left. reflexivity.
